@@ -39,8 +39,14 @@ func (r *Response) Result() (any, error) {
 	}
 }
 
-func (r *Response) Send(_ *PID, msg any, _ *PID) {
-	r.result <- msg
+// Send never blocks the replying goroutine: the mailbox holds one reply; a
+// further reply that finds it full is reported as a dead letter.
+func (r *Response) Send(_ *PID, msg any, sender *PID) {
+	select {
+	case r.result <- msg:
+	default:
+		r.engine.BroadcastEvent(DeadLetterEvent{Target: r.pid, Message: msg, Sender: sender})
+	}
 }
 
 func (r *Response) PID() *PID         { return r.pid }
